@@ -84,6 +84,15 @@ func HarnessRevalidation() {
 		vNote("C06: with no Last-Modified from the origin, the store time is sent as If-Modified-Since (not judged)")
 	}
 	vAssert(len(up["If-Match"]) == 0 && len(up["If-Unmodified-Since"]) == 0, "c06.client-conditional-forwarded")
+	// any further upstream request of this exchange (e.g. the direct fetch after an
+	// unstorable answer) is the client's own request: it carries neither the client's
+	// stripped conditionals nor the stored validators
+	for i := 2; i < len(e.o.seen); i++ {
+		x := e.o.seen[i].header
+		vReach("follow-up-fetch")
+		vAssert(len(x["If-None-Match"]) == 0 && len(x["If-Modified-Since"]) == 0 && len(x["If-Match"]) == 0 && len(x["If-Unmodified-Since"]) == 0,
+			"c06.conditional-header-on-the-clients-own-fetch")
+	}
 	m2, _, err2 := e.p.cache.GetMetadata(key)
 	switch second {
 	case 0:
